@@ -935,7 +935,7 @@ def run_sweep(rep, ad, lib, graph, rng, thorough, quarantine):
        (b) refusal on read: per setting and refused value, the edited short file is refused and nothing changes."""
     n = nt = 0
     kmax = max(len(v) for v in lib.vals.values())
-    ks = range(kmax) if thorough else range(min(kmax, 6))
+    ks = range(kmax) if thorough else range(min(kmax, 3 if _SELFTEST else 6))
     seqs = []
     for style in ("short", "medium", "full"):
         w1 = [A("Write", o=1, style=style)] if style != "medium" else [A("Write", o=1, style="short"), A("New"), A("Read", o=2), A("Write", o=1, style="medium")]
@@ -963,7 +963,7 @@ def run_sweep(rep, ad, lib, graph, rng, thorough, quarantine):
     for m in lib.order:
         if m == "versions" or not lib.vals[m] or not lib.bad[m]:
             continue
-        nb = len(lib.bad[m]) if thorough else min(len(lib.bad[m]), 2)
+        nb = len(lib.bad[m]) if thorough else min(len(lib.bad[m]), 1 if _SELFTEST else 2)
         for k in range(nb):
             kk = k if thorough else rng.randrange(len(lib.bad[m]))
             g = Gamma(lib, rng, k=kk, only={m}, with_r=False, api=("file", "stream")[k % 2])
@@ -1257,9 +1257,10 @@ def run(rep, tier, seed):
     f_cat = pool.submit(schema_cases, gs.catalog())
     f_io = pool.submit(emit_graph, "SettingsCase_emit_io%s.cfg" % sfx)
     f_copy = pool.submit(emit_graph, "SettingsCase_emit_copy%s.cfg" % sfx)
+    f_all = pool.submit(emit_graph, "SettingsCase_emit_all_thorough.cfg") if thorough and not _SELFTEST else None
 
     def exhaustive():
-        out = [("SettingSchema_mc", "SettingSchema_mc.cfg", tlc.run("SettingSchema_mc", "SettingSchema_mc.cfg", MODDIR, workers=2, want_prints=False, timeout=3000))]
+        out = [("SettingSchema_mc", "SettingSchema_mc.cfg", tlc.run("SettingSchema_mc", "SettingSchema_mc.cfg", MODDIR, workers=2, coverage=False, want_prints=False, timeout=3000))]
         for cfg in ("SettingsCase_mc%s.cfg" % sfx, "SettingsCase_io%s.cfg" % sfx, "SettingsCase_copy%s.cfg" % sfx):
             out.append(("SettingsCase_mc", cfg, tlc.run("SettingsCase_mc", cfg, MODDIR, workers=8 if thorough else 4, want_prints=False, timeout=3000)))
         return out
@@ -1293,7 +1294,11 @@ def run(rep, tier, seed):
         raise tlc.MachineryError("emission produced too few edges (%d, %d)" % (len(gio.edges), len(gcopy.edges)))
     sizes = (4, 8) if not thorough else (6, 14)
     n1 = replay_edges(rep, ad, lib, gio, "io-edges", rng, sizes[0], max_edges=None if thorough else (200 if _SELFTEST else 400), exclude=quarantine)
-    n2 = replay_edges(rep, ad, lib, gcopy, "copy-edges", rng, sizes[1], max_edges=None if thorough else (300 if _SELFTEST else 700), exclude=quarantine)
+    n2 = replay_edges(rep, ad, lib, gcopy, "copy-edges", rng, sizes[1], max_edges=6000 if thorough else (300 if _SELFTEST else 700), exclude=quarantine)
+    if f_all is not None:
+        ares, gall = f_all.result()
+        rep.add_tlc("edges:SettingsCase_emit_all_thorough.cfg", ares)
+        replay_edges(rep, ad, lib, gall, "all-edges(sampled)", rng, 6, max_edges=4000, exclude=quarantine)
     if not n1 or not n2:
         raise tlc.MachineryError("no edges replayed")
     e = gio.edges[len(gio.edges) // 2]
@@ -1413,3 +1418,177 @@ class _NullRep:
 
     def violation(self, *a, **k):
         pass
+
+
+def selftest():
+    """In-process mutants of the anchored code; each must produce a violation key the tree under test does not produce.
+    (TLC artefacts -- cases, graphs -- are computed once; every mutant re-runs the real-code side and the trace validation.)"""
+    global _SELFTEST
+    import voluptuous as vol
+
+    from harness.report import Report
+    from harness.selftest import patched, run_mutants
+
+    _settings_cls()
+    from armi.physics.neutronics import crossSectionSettings as xss
+    from armi.settings import caseSettings, setting, settingsIO
+    from armi.utils.customExceptions import NonexistentSetting
+
+    _SELFTEST = True
+    S, W, R, CS = setting.Setting, settingsIO.SettingsWriter, settingsIO.SettingsReader, caseSettings.Settings
+
+    def detect():
+        rep = Report("C17", "quick", 0)
+        run(rep, "quick", 0)
+        return [v["key"] for v in rep.violations]
+
+    def setvalue_store_first(self, val):
+        self._value = val
+        val = self.schema(val)
+        self._value = self._load(val)
+
+    orig_data = W._getSettingDataToWrite
+
+    def write_short_as_full(self):
+        st, self.style = self.style, ("full" if self.style == "short" else self.style)
+        try:
+            return orig_data(self)
+        finally:
+            self.style = st
+
+    def write_short_by_truthiness(self):
+        data = orig_data(self)
+        if self.style == "short":
+            for k in [k for k in data if not k.value and k.name != "versions"]:
+                del data[k]
+        return data
+
+    def write_medium_as_short(self):
+        st, self.style = self.style, ("short" if self.style == "medium" else self.style)
+        try:
+            return orig_data(self)
+        finally:
+            self.style = st
+
+    def apply_swallow_invalid(self, name, val):
+        if name not in self.cs:
+            self.invalidSettings.add(name)
+            return
+        try:
+            self.cs[name] = val
+        except vol.Invalid:
+            self.invalidSettings.add(name)
+
+    orig_ready = R._readYaml
+
+    def read_resets_first(self, stream):
+        self.cs.revertToDefaults()
+        return orig_ready(self, stream)
+
+    def duplicate_shallow(self):
+        return copy.copy(self)
+
+    orig_copy = S.__copy__
+
+    def copy_shares_value(self):
+        c = orig_copy(self)
+        c._value = self._value
+        return c
+
+    orig_setstate = CS.__setstate__
+
+    def setstate_defaults(self, state):
+        orig_setstate(self, state)
+        for s in dict(self.items()).values():
+            if isinstance(s.value, (int, float)) and not isinstance(s.value, bool):
+                s._value = copy.deepcopy(s.default)
+
+    def flags_dump_raw(self):
+        return list(self.value)
+
+    def setschema_ignores_enforced(self):
+        schema = self._customSchema
+        if schema:
+            self.schema = schema
+        elif isinstance(self.default, list) and self.default:
+            self.schema = vol.Schema([vol.Coerce(type(self.default[0]))])
+        else:
+            self.schema = vol.Schema(vol.Coerce(type(self.default)))
+
+    def setschema_no_element_type(self):
+        schema = self._customSchema
+        if schema:
+            self.schema = schema
+        elif self.options and self.enforcedOptions:
+            self.schema = vol.Schema(vol.In(self.options))
+        else:
+            self.schema = vol.Schema(vol.Coerce(type(self.default)))
+
+    def xs_dump_drops(self):
+        out = xss.serializeXSSettings(self._value)
+        return {k: {a: b for a, b in v.items() if a != "geometry"} for k, v in out.items()}
+
+    def modified_in_place(self, caseTitle=None, newSettings=None):
+        for k, v in (newSettings or {}).items():
+            self[k] = v
+        return self.duplicate()
+
+    orig_pre = W._preprocessYaml
+
+    def no_stamp(self, settingData):
+        y = orig_pre(self, settingData)
+        y["settings"]["versions"].pop("armi", None)
+        return y
+
+    def setitem_ignores_unknown(self, key, val):
+        s = dict(self.items()).get(key)
+        if s is not None:
+            s.setValue(val)
+
+    def getsetting_live(self, key, default=None):
+        s = dict(self.items()).get(key)
+        if s is None:
+            raise NonexistentSetting(key)
+        return s
+
+    def revert_aliases_default(self):
+        self._value = self.default
+
+    orig_ren = settingsIO.SettingRenamer.__init__
+
+    def renamer_ignores_expiry(self, settings):
+        class _S:
+            def __init__(self, s):
+                self.oldNames = [(o, None) for o, _e in s.oldNames]
+        orig_ren(self, {k: _S(v) for k, v in settings.items()})
+
+    def isdefault_identity(self):
+        return self.value is self.default
+
+    P = patched
+    mutants = [
+        ("Setting.setValue stores before it validates", lambda: P(S, "setValue", setvalue_store_first)),
+        ("writer: short style writes every setting", lambda: P(W, "_getSettingDataToWrite", write_short_as_full)),
+        ("writer: short style omits falsy values instead of defaults", lambda: P(W, "_getSettingDataToWrite", write_short_by_truthiness)),
+        ("writer: medium style forgets the user's settings", lambda: P(W, "_getSettingDataToWrite", write_medium_as_short)),
+        ("writer: no armi version stamp", lambda: P(W, "_preprocessYaml", no_stamp)),
+        ("reader: refused values are swallowed as 'invalid settings'", lambda: P(R, "_applySettings", apply_swallow_invalid)),
+        ("reader: resets the object before applying (no overlay)", lambda: P(R, "_readYaml", read_resets_first)),
+        ("Settings.duplicate is a shallow copy", lambda: P(CS, "duplicate", duplicate_shallow)),
+        ("Setting.__copy__ shares the value object", lambda: P(S, "__copy__", copy_shares_value)),
+        ("Settings.__setstate__ loses numeric values", lambda: P(CS, "__setstate__", setstate_defaults)),
+        ("Settings.modified changes the original", lambda: P(CS, "modified", modified_in_place)),
+        ("Settings.getSetting hands out the live Setting", lambda: P(CS, "getSetting", getsetting_live)),
+        ("Settings.__setitem__ ignores unknown names", lambda: P(CS, "__setitem__", setitem_ignores_unknown)),
+        ("FlagListSetting.dump returns Flags, not names", lambda: P(setting.FlagListSetting, "dump", flags_dump_raw)),
+        ("XSSettingDef.dump drops the geometry", lambda: P(xss.XSSettingDef, "dump", xs_dump_drops)),
+        ("Setting._setSchema ignores enforcedOptions", lambda: P(S, "_setSchema", setschema_ignores_enforced)),
+        ("Setting._setSchema: no element type for list defaults", lambda: P(S, "_setSchema", setschema_no_element_type)),
+        ("Setting.isDefault by identity", lambda: P(S, "isDefault", isdefault_identity)),
+        ("SettingRenamer ignores expiry dates", lambda: P(settingsIO.SettingRenamer, "__init__", renamer_ignores_expiry)),
+        ("Setting.revertToDefault aliases the default", lambda: P(S, "revertToDefault", revert_aliases_default)),
+    ]
+    try:
+        return run_mutants(mutants, detect)
+    finally:
+        _SELFTEST = False
